@@ -1340,3 +1340,751 @@ Proof.
   - destruct (lookup name e); [apply IH, H|reflexivity].
   - apply IH, H.
 Qed.
+
+(** * 4. Recursive types: a bound that does not depend on the fuel
+
+    [K] above grows with the fuel when [t] reaches a reference cycle, although
+    a decoder whose every recursion level consumes input cannot recurse deeper
+    than the input is long.  The second analysis below accounts in DEBTS at a
+    fixed rate [B] (steps per bit): a reader has success debt [dd] and error
+    debt [de] when its steps are at most [dd + B * consumed] on success and
+    [de + B * remaining] on an error.  [dd] may be negative (a CREDIT: a read
+    of 8 bits costs 1 step and leaves [8 * B - 1]), debts add up along a
+    sequence, so the bits a level consumes pay for the steps of that level and
+    the debt does not accumulate along the recursion.  Reference cycles are
+    cut at chosen names with ASSUMED debts [rho]; the assumption is discharged
+    by a computation ([rho_ok]): the body of every cut name, analysed under the
+    assumptions, stays within its assumed debt - at every fuel. *)
+Local Close Scope N_scope.
+
+Record dk : Type := DK { dd : Z; de : Z; dok : bool }.
+
+Section Debt.
+  Variable B : Z.
+  Hypothesis HB : 0 <= B.
+  (** the success debt given to readers that never succeed (any number) *)
+  Variable M : Z.
+
+  Definition Inv {A} (k : dk) (m : creader A) : Prop :=
+    dok k = true ->
+    forall bs,
+      match m bs with
+      | (Ok (_, r), c) =>
+        (length r <= length bs)%nat /\ Z.of_N c <= dd k + B * Z.of_nat (length bs - length r)
+      | (Err _, c) => Z.of_N c <= de k + B * Z.of_nat (length bs)
+      end.
+
+  Definition dle (k k' : dk) : Prop :=
+    dok k' = true -> dok k = true /\ dd k <= dd k' /\ de k <= de k'.
+
+  Definition dret : dk := DK 0 0 true.
+  Definition dfail : dk := DK (- M) 0 true.
+  Definition done : dk := DK 1 1 true.
+  Definition dtick (n : Z) (k : dk) : dk := DK (n + dd k) (n + de k) (dok k).
+  Definition dseq (k1 k2 : dk) : dk :=
+    DK (dd k1 + dd k2) (Z.max (de k1) (dd k1 + de k2)) (dok k1 && dok k2).
+  Definition dalt (k1 k2 : dk) : dk :=
+    DK (Z.max (dd k1) (dd k2)) (Z.max (de k1) (de k2)) (dok k1 && dok k2).
+  Definition dconv (k : abw) : dk :=
+    DK (Z.of_N (ka k) - (B - Z.of_N (kb k)) * (if kw k then 1 else 0)) (Z.of_N (ka k))
+       (Z.of_N (kb k) <=? B).
+
+  Lemma dle_refl k : dle k k.
+  Proof. unfold dle. intros H. repeat split; auto; lia. Qed.
+
+  Lemma Inv_weaken {A} k k' (m : creader A) : dle k k' -> Inv k m -> Inv k' m.
+  Proof.
+    intros Hle H Hok bs. destruct (Hle Hok) as (Hok1 & Hd & He). specialize (H Hok1 bs).
+    destruct (m bs) as [[[x r]|er] c].
+    - destruct H as (L & C). split; [exact L|lia].
+    - lia.
+  Qed.
+
+  Lemma Inv_ret {A} (a : A) : Inv dret (cret a).
+  Proof. intros _ bs. cbn. split; [lia|]. rewrite Nat.sub_diag. lia. Qed.
+
+  Lemma Inv_fail {A} x : Inv dfail (@cfail A x).
+  Proof. intros _ bs. cbn. lia. Qed.
+
+  Lemma Inv_tick {A} n k (m : creader A) : Inv k m -> Inv (dtick (Z.of_N n) k) (tick n m).
+  Proof.
+    intros H Hok bs. specialize (H Hok bs). unfold tick. destruct (m bs) as [[[x r]|er] c]; cbn [dd de dtick].
+    - destruct H as (L & C). split; [exact L|lia].
+    - lia.
+  Qed.
+
+  Lemma Inv_bind_post {A C} (Q : A -> Prop) k1 k2 (m : creader A) (f : A -> creader C) :
+    Inv k1 m -> Post Q m -> (forall x, Q x -> Inv k2 (f x)) -> Inv (dseq k1 k2) (cbind m f).
+  Proof.
+    intros H1 HQ H2 Hok bs. cbn [dok dseq] in Hok. apply andb_prop in Hok. destruct Hok as [Hok1 Hok2].
+    unfold cbind. specialize (H1 Hok1 bs). specialize (HQ bs).
+    destruct (m bs) as [[[x r]|er] c1]; cbn [dd de dseq].
+    - destruct H1 as (L1 & C1). specialize (H2 x (HQ _ _ _ eq_refl) Hok2 r).
+      destruct (f x r) as [[[y r2]|er2] c2].
+      + destruct H2 as (L2 & C2). split; [lia|].
+        replace (Z.of_nat (length bs - length r2))
+          with (Z.of_nat (length bs - length r) + Z.of_nat (length r - length r2)) by lia.
+        rewrite Z.mul_add_distr_l. lia.
+      + replace (Z.of_nat (length bs))
+          with (Z.of_nat (length bs - length r) + Z.of_nat (length r)) by lia.
+        rewrite Z.mul_add_distr_l. lia.
+    - lia.
+  Qed.
+
+  Lemma Inv_bind {A C} k1 k2 (m : creader A) (f : A -> creader C) :
+    Inv k1 m -> (forall x, Inv k2 (f x)) -> Inv (dseq k1 k2) (cbind m f).
+  Proof.
+    intros H1 H2. apply (Inv_bind_post (fun _ => True)); auto. intros bs x r c _. exact I.
+  Qed.
+
+  Lemma dle_alt_l k1 k2 : dle k1 (dalt k1 k2).
+  Proof.
+    unfold dle, dalt; cbn [dd de dok]. intros H. apply andb_prop in H. destruct H. repeat split; auto; lia.
+  Qed.
+  Lemma dle_alt_r k1 k2 : dle k2 (dalt k1 k2).
+  Proof.
+    unfold dle, dalt; cbn [dd de dok]. intros H. apply andb_prop in H. destruct H. repeat split; auto; lia.
+  Qed.
+
+  Lemma Inv_if {A} k1 k2 (c : bool) (m1 m2 : creader A) :
+    Inv k1 m1 -> Inv k2 m2 -> Inv (dalt k1 k2) (if c then m1 else m2).
+  Proof.
+    intros H1 H2. destruct c; [eapply Inv_weaken; [apply dle_alt_l|exact H1]
+                              | eapply Inv_weaken; [apply dle_alt_r|exact H2]].
+  Qed.
+
+  Lemma Inv_opt {A C} k1 k2 (o : option C) (f : C -> creader A) (g : creader A) :
+    (forall x, Inv k1 (f x)) -> Inv k2 g ->
+    Inv (dalt k1 k2) (match o with Some x => f x | None => g end).
+  Proof.
+    intros H1 H2. destruct o as [x|]; [eapply Inv_weaken; [apply dle_alt_l|exact (H1 x)]
+                                      | eapply Inv_weaken; [apply dle_alt_r|exact H2]].
+  Qed.
+
+  Lemma Inv_with_consumed {A} k (m : creader A) : Inv k m -> Inv k (c_with_consumed m).
+  Proof.
+    intros H Hok bs. specialize (H Hok bs). unfold c_with_consumed.
+    destruct (m bs) as [[[x r]|er] c]; exact H.
+  Qed.
+
+  (** every [(a, b, w)] bound with [b <= B] is a debt bound; a reader that
+      consumes at least one bit leaves a credit of [B - b] *)
+  Lemma Inv_conv {A} k (m : creader A) : Cost k m -> Inv (dconv k) m.
+  Proof.
+    intros H Hok bs. cbn [dok dconv] in Hok. specialize (H bs).
+    destruct (m bs) as [[[x r]|er] c]; cbn [dd de dconv].
+    - destruct H as (L & C & W). split; [exact L|].
+      assert (C' : Z.of_N c <= Z.of_N (ka k) + Z.of_N (kb k) * Z.of_nat (length bs - length r)) by lia.
+      destruct (kw k).
+      + specialize (W eq_refl). assert (1 <= Z.of_nat (length bs - length r)) by lia. nia.
+      + nia.
+    - assert (C' : Z.of_N c <= Z.of_N (ka k) + Z.of_N (kb k) * Z.of_nat (length bs)) by lia. nia.
+  Qed.
+
+  Lemma Inv_one {A} k (m : creader A) : Cost k m -> ka k = 1%N -> kb k = 0%N -> Inv done m.
+  Proof.
+    intros H Ha Hb. eapply Inv_weaken; [|apply (Inv_conv k m H)].
+    unfold dle, dconv, done; cbn [dd de dok]. rewrite Ha, Hb. intros _.
+    split; [lia|]. destruct (kw k); lia.
+  Qed.
+
+  (** loops *)
+  Definition d_rep (nmax : Z) (k : dk) : dk :=
+    if 1 + dd k <=? 0 then DK 0 (Z.max 0 (1 + de k)) (dok k)
+    else DK (nmax * (1 + dd k)) (nmax * (1 + dd k) + Z.max 0 (1 + de k)) (dok k).
+
+  Lemma Inv_read_n_pay {A} k (rd : creader A) n :
+    1 + dd k <= 0 -> Inv k rd -> Inv (DK 0 (Z.max 0 (1 + de k)) (dok k)) (c_read_n n rd).
+  Proof.
+    intros Hp H Hok. cbn [dok] in Hok. specialize (H Hok).
+    induction n as [|n IH]; intros bs; cbn [c_read_n dd de].
+    - cbn. split; [lia|]. rewrite Nat.sub_diag. lia.
+    - unfold tick, cbind. specialize (H bs). destruct (rd bs) as [[[v r]|er] c1].
+      + destruct H as (L1 & C1). specialize (IH r).
+        destruct (c_read_n n rd r) as [[[vs r2]|er2] c2]; cbn [cret dd de] in *.
+        * destruct IH as (L2 & C2). split; [lia|].
+          replace (Z.of_nat (length bs - length r2))
+            with (Z.of_nat (length bs - length r) + Z.of_nat (length r - length r2)) by lia.
+          rewrite Z.mul_add_distr_l. lia.
+        * replace (Z.of_nat (length bs))
+            with (Z.of_nat (length bs - length r) + Z.of_nat (length r)) by lia.
+          rewrite Z.mul_add_distr_l. lia.
+      + lia.
+  Qed.
+
+  Lemma Inv_read_n_count {A} k (rd : creader A) n :
+    0 <= 1 + dd k -> Inv k rd ->
+    Inv (DK (Z.of_nat n * (1 + dd k)) (Z.of_nat n * (1 + dd k) + Z.max 0 (1 + de k)) (dok k)) (c_read_n n rd).
+  Proof.
+    intros Hp H Hok. cbn [dok] in Hok. specialize (H Hok).
+    induction n as [|n IH]; intros bs; cbn [c_read_n dd de].
+    - cbn. split; [lia|]. rewrite Nat.sub_diag. lia.
+    - unfold tick, cbind. specialize (H bs). destruct (rd bs) as [[[v r]|er] c1].
+      + destruct H as (L1 & C1). specialize (IH r).
+        destruct (c_read_n n rd r) as [[[vs r2]|er2] c2]; cbn [cret dd de] in *.
+        * destruct IH as (L2 & C2). split; [lia|].
+          replace (Z.of_nat (length bs - length r2))
+            with (Z.of_nat (length bs - length r) + Z.of_nat (length r - length r2)) by lia.
+          rewrite Z.mul_add_distr_l. rewrite Nat2Z.inj_succ. lia.
+        * replace (Z.of_nat (length bs))
+            with (Z.of_nat (length bs - length r) + Z.of_nat (length r)) by lia.
+          rewrite Z.mul_add_distr_l. rewrite Nat2Z.inj_succ. lia.
+      + rewrite Nat2Z.inj_succ. nia.
+  Qed.
+
+  Lemma Inv_read_n {A} k (rd : creader A) nmax n :
+    Inv k rd -> Z.of_nat n <= nmax -> Inv (d_rep nmax k) (c_read_n n rd).
+  Proof.
+    intros H Hn. unfold d_rep. destruct (1 + dd k <=? 0) eqn:E.
+    - apply Inv_read_n_pay; [lia|exact H].
+    - eapply Inv_weaken; [|apply (Inv_read_n_count k rd n); [lia|exact H]].
+      unfold dle; cbn [dd de dok]. intros Hok. split; [exact Hok|]. nia.
+  Qed.
+
+  Definition d_len : dk := DK (2 - 8 * B) 2 true.
+
+  Lemma Inv_read_len : Inv d_len c_read_len.
+  Proof.
+    intros _ bs. pose proof (c_read_len_spec bs) as Hs.
+    destruct (c_read_len bs) as [[[n r]|er] c]; cbn [dd de d_len].
+    - destruct Hs as (C & _ & L). split; [lia|]. nia.
+    - nia.
+  Qed.
+
+  Lemma Post_read_len : Post (fun n => 0 <= n <= 65536) c_read_len.
+  Proof.
+    intros bs x r c E. pose proof (c_read_len_spec bs) as Hs. rewrite E in Hs. tauto.
+  Qed.
+
+  Definition d_lenrep (k : dk) : dk := dseq d_len (dseq (d_rep 65536 k) dret).
+
+  Lemma Inv_lenrep {A C} k (rd : creader A) (g : list A -> creader C) :
+    Inv k rd -> (forall l, Inv dret (g l)) ->
+    Inv (d_lenrep k) (dc* n <- c_read_len; dc* vs <- c_read_n (Z.to_nat n) rd; g vs).
+  Proof.
+    intros H Hg. unfold d_lenrep. apply (Inv_bind_post _ _ _ _ _ Inv_read_len Post_read_len).
+    intros n Hn. apply Inv_bind; [|exact Hg]. apply Inv_read_n; [exact H|lia].
+  Qed.
+
+  (** fragments: each one must pay for itself with its 8 determinant bits *)
+  Definition d_frag (k : dk) : dk :=
+    let F := 1 + (2 - 8 * B) + dd (d_rep 65536 k) in
+    DK F (1 + Z.max 2 (2 - 8 * B + de (d_rep 65536 k))) (dok (d_rep 65536 k) && (F <=? 0)).
+
+  Lemma Inv_read_frag {A} k (rd : creader A) :
+    Inv k rd -> forall fuel, Inv (d_frag k) (c_read_frag fuel rd).
+  Proof.
+    intros H fuel. induction fuel as [|f IH]; cbn [c_read_frag].
+    - intros Hok bs. unfold cfail, d_frag. cbn [de].
+      pose proof (Z.mul_nonneg_nonneg B (Z.of_nat (length bs)) HB ltac:(lia)). lia.
+    - eapply Inv_weaken; [|eapply (Inv_tick 1);
+        eapply Inv_bind_post; [apply Inv_read_len | apply Post_read_len |];
+        intros n Hn; cbv beta in Hn;
+        eapply Inv_bind; [apply (Inv_read_n k rd 65536); [exact H|lia]|];
+        intros items; eapply Inv_if; [apply Inv_ret|];
+        eapply Inv_bind; [exact IH|intros; apply Inv_ret]].
+      unfold dle, d_frag, dtick, dseq, dalt, dret, d_len; cbn [dd de dok].
+      intros Hok. apply andb_prop in Hok. destruct Hok as [Hok1 Hok2].
+      rewrite Hok1, Hok2. cbn [andb]. split; [reflexivity|]. lia.
+  Qed.
+
+  Lemma Inv_read_frag_auto {A} k (rd : creader A) : Inv k rd -> Inv (d_frag k) (c_read_frag_auto rd).
+  Proof. intros H Hok bs. unfold c_read_frag_auto. apply (Inv_read_frag k rd H _ Hok). Qed.
+
+  Definition d_sized (sz : size) (k : dk) : dk :=
+    dseq (dconv (k_extra sz)) (dseq (d_rep (Z.of_N (size_nmax sz)) k) dret).
+
+  Lemma Inv_sized {A C} sz k (rd : creader A) (g : list A -> creader C) :
+    Inv k rd -> (forall l, Inv dret (g l)) ->
+    Inv (d_sized sz k)
+        (dc* extra <- c_extra sz; dc* vs <- c_read_n (Z.to_nat (size_lo sz + extra)) rd; g vs).
+  Proof.
+    intros H Hg. unfold d_sized.
+    apply (Inv_bind_post _ _ _ _ _ (Inv_conv _ _ (Cost_extra sz)) (Post_extra sz)).
+    intros extra He. apply Inv_bind; [|exact Hg].
+    apply Inv_read_n; [exact H | unfold size_nmax; lia].
+  Qed.
+
+  Definition d_array (sz : size) (k : dk) : dk :=
+    let normal := if size_unbound sz then dseq (d_frag k) dret else d_sized sz k in
+    if size_ext sz then dseq (dconv (kprim true)) (dalt (d_lenrep k) normal) else normal.
+
+  Lemma Inv_array {A} sz k (rd : creader A) g :
+    Inv k rd -> (forall l, Inv dret (g l)) -> Inv (d_array sz k) (c_array rd g sz).
+  Proof.
+    intros H Hg. unfold d_array, c_array.
+    assert (Hn : Inv (if size_unbound sz then dseq (d_frag k) dret else d_sized sz k)
+                   (if size_unbound sz then dc* vs <- c_read_frag_auto rd; g vs
+                    else dc* extra <- c_extra sz; dc* vs <- c_read_n (Z.to_nat (size_lo sz + extra)) rd; g vs)).
+    { destruct (size_unbound sz).
+      - apply Inv_bind; [apply Inv_read_frag_auto, H|exact Hg].
+      - apply Inv_sized; assumption. }
+    destruct (size_ext sz); [|exact Hn].
+    apply Inv_bind; [apply Inv_conv, Cost_read_bit|]. intros b. apply Inv_if; [|exact Hn].
+    apply Inv_lenrep; assumption.
+  Qed.
+
+  (** composite types, relative to a debt bound [dT] of the nested types *)
+  Section DComposite.
+    Variable dT : ty -> dk.
+
+    Definition d_member_seq (m : member_of ty) (acc : dk) : dk :=
+      if has_presence_bit m
+      then dalt (dseq (dT (m_ty m)) (dseq acc dret)) (dseq acc dret)
+      else dseq (dT (m_ty m)) (dseq acc dret).
+
+    Fixpoint d_members (ms : list (member_of ty)) : dk :=
+      match ms with
+      | [] => dret
+      | m :: r => dtick 1 (d_member_seq m (d_members r))
+      end.
+
+    Definition d_root (ms : list (member_of ty)) : dk :=
+      dseq (dconv (ABW (2 * N.of_nat (n_pres ms)) 0 (0 <? n_pres ms)%nat)) (d_members ms).
+
+    Definition d_one_addition (ad : addition_of ty) : dk :=
+      if fst ad then d_root (snd ad)
+      else match snd ad with
+           | [m] => dseq (dT (m_ty m)) dret
+           | _ => dfail
+           end.
+
+    Definition d_one_adds (adds : list (addition_of ty)) : dk :=
+      match adds with
+      | [] => done
+      | ad :: _ => d_one_addition ad
+      end.
+
+    (** maximum over the known additions and the skip of an unknown one *)
+    Definition d_adds_max (adds : list (addition_of ty)) : dk :=
+      fold_right (fun ad acc => dalt (d_one_addition ad) acc) done adds.
+
+    Definition d_adds_P (adds : list (addition_of ty)) : Z :=
+      Z.max 1 (1 + (2 - 8 * B) + dd (d_adds_max adds) + 1).
+    Definition d_adds_E (adds : list (addition_of ty)) : Z :=
+      Z.max 3 (3 - 8 * B + de (d_adds_max adds)).
+
+    Definition d_dec_adds (adds : list (addition_of ty)) : dk :=
+      DK (127 * d_adds_P adds) (127 * d_adds_P adds + d_adds_E adds) (dok (d_adds_max adds)).
+
+    Definition d_additions (adds : list (addition_of ty)) : dk :=
+      dseq (dconv k_small_len) (dseq done (d_dec_adds adds)).
+
+    Definition d_seq (root : list (member_of ty)) (ext : option (list (addition_of ty))) : dk :=
+      match ext with
+      | None => dseq (d_root root) dret
+      | Some adds =>
+        dseq (dconv (kprim true))
+             (dseq (d_root root) (dalt (dseq (d_additions adds) dret) dret))
+      end.
+
+    Definition dmax_alts (alts : list (member_of ty)) : dk :=
+      fold_right (fun m acc => dalt (dT (m_ty m)) acc) dfail alts.
+
+    Definition d_choice_root (root : list (member_of ty)) : dk :=
+      dseq (if (1 <? length root)%nat then dconv (kprim (0 <? choice_root_bits root)%nat) else dret)
+           (dseq (dmax_alts root) dret).
+
+    Definition d_choice (root : list (member_of ty)) (ext : option (list (member_of ty))) : dk :=
+      match ext with
+      | None => d_choice_root root
+      | Some adds =>
+        dseq (dconv (kprim true))
+             (dalt (d_choice_root root)
+                   (dseq (dconv k_small_nonneg)
+                         (dseq d_len (dalt (dseq (dmax_alts adds) (dalt dfail (dseq done dret)))
+                                           (dseq done dret)))))
+      end.
+
+    Variable decT : ty -> creader value.
+    Hypothesis HT : forall t, Inv (dT t) (decT t).
+
+    Lemma dle_seq_ret k : dle k (dseq k dret).
+    Proof.
+      unfold dle, dseq, dret; cbn [dd de dok]. intros H. apply andb_prop in H. destruct H as [H _].
+      split; [exact H|]. lia.
+    Qed.
+
+    Lemma Inv_dec_members ms : forall pres, Inv (d_members ms) (c_dec_members decT ms pres).
+    Proof.
+      induction ms as [|m r IH]; intros pres; cbn [c_dec_members d_members]; [apply Inv_ret|].
+      apply (Inv_tick 1). unfold d_member_seq. destruct (has_presence_bit m).
+      - destruct pres as [|p pres'].
+        + intros Hok bs. unfold cfail. cbn [dd de dalt dseq dret].
+          cbn [dok dalt dseq dret] in Hok.
+          pose proof (Z.mul_nonneg_nonneg B (Z.of_nat (length bs)) HB ltac:(lia)).
+          assert (Hr : dok (d_members r) = true).
+          { destruct (dok (dT (m_ty m))); destruct (dok (d_members r)); cbn in Hok; congruence. }
+          pose proof (IH [] Hr []) as Hx. cbn [length] in Hx.
+          destruct (c_dec_members decT r [] []) as [[[x rr]|er] c]; [destruct Hx as (_ & Hx)|]; cbn in Hx; lia.
+        + destruct p.
+          * eapply Inv_weaken; [apply dle_alt_l|].
+            apply Inv_bind; [apply HT|]. intros v. apply Inv_bind; [apply IH|intros; apply Inv_ret].
+          * eapply Inv_weaken; [apply dle_alt_r|]. destruct (m_opt m).
+            -- eapply Inv_weaken; [apply dle_seq_ret|apply IH].
+            -- eapply Inv_weaken; [apply dle_seq_ret|apply IH].
+            -- apply Inv_bind; [apply IH|intros; apply Inv_ret].
+      - apply Inv_bind; [apply HT|]. intros v. apply Inv_bind; [apply IH|intros; apply Inv_ret].
+    Qed.
+
+    Lemma Inv_dec_root ms : Inv (d_root ms) (c_dec_root decT ms).
+    Proof.
+      unfold c_dec_root, d_root. apply Inv_bind; [|intros; apply Inv_dec_members].
+      apply Inv_conv. eapply Cost_weaken; [|apply (Cost_read_n_exact (kprim true)), Cost_read_bit].
+      unfold n_pres, kle, kprim; cbn [ka kb kw]. repeat split; lia.
+    Qed.
+
+    Lemma Inv_skip n : Inv done (c_skip_bits n).
+    Proof. apply (Inv_one _ _ (Cost_skip_bits n)); reflexivity. Qed.
+
+    Lemma Inv_dec_one_addition adds n : Inv (d_one_adds adds) (c_dec_one_addition decT adds n).
+    Proof.
+      unfold c_dec_one_addition, d_one_adds. destruct adds as [|[isgroup ms] rest].
+      - intros _ bs. pose proof (Inv_skip (Z.to_nat (8 * n)) eq_refl bs) as Hs.
+        unfold cbind. destruct (c_skip_bits (Z.to_nat (8 * n)) bs) as [[[x r]|er] c]; [|exact Hs].
+        unfold cret. destruct Hs as (L & C). split; [exact L|]. cbn [dd done] in *. lia.
+      - unfold d_one_addition. cbn [fst snd]. destruct isgroup; [apply Inv_dec_root|].
+        destruct ms as [|m [|m2 ms]]; try apply Inv_fail.
+        apply Inv_bind; [apply HT|intros; apply Inv_ret].
+    Qed.
+
+    Lemma d_adds_max_tl adds : dle (d_adds_max (tl adds)) (d_adds_max adds).
+    Proof.
+      destruct adds as [|ad rest]; [apply dle_refl|]. cbn [tl d_adds_max fold_right]. apply dle_alt_r.
+    Qed.
+
+    Lemma d_one_adds_le adds : dle (d_one_adds adds) (d_adds_max adds).
+    Proof.
+      destruct adds as [|ad rest]; [apply dle_refl|]. cbn [d_one_adds d_adds_max fold_right]. apply dle_alt_l.
+    Qed.
+
+    Lemma Inv_dec_adds_gen Mx : forall pres adds,
+      dle (d_adds_max adds) Mx ->
+      let P := Z.max 1 (1 + (2 - 8 * B) + dd Mx + 1) in
+      let E := Z.max 3 (3 - 8 * B + de Mx) in
+      Inv (DK (Z.of_nat (length pres) * P) (Z.of_nat (length pres) * P + E) (dok Mx)) (c_dec_adds decT pres adds).
+    Proof.
+      intros pres adds HM P E. revert adds HM.
+      induction pres as [|p pres IH]; intros adds HM; cbn [c_dec_adds].
+      - intros _ bs. cbn. split; [lia|]. rewrite Nat.sub_diag. lia.
+      - assert (HM' : dle (d_adds_max (tl adds)) Mx).
+        { intros Hok. destruct (HM Hok) as (H1 & H2 & H3).
+          destruct (d_adds_max_tl adds H1) as (H4 & H5 & H6). repeat split; [exact H4|lia|lia]. }
+        specialize (IH (tl adds) HM').
+        destruct p; cbn [negb].
+        + eapply Inv_weaken; [|eapply (Inv_tick 1);
+            eapply Inv_bind; [apply Inv_read_len|]; intros open_len;
+            eapply Inv_bind; [apply Inv_with_consumed;
+                              eapply Inv_weaken; [|apply Inv_dec_one_addition];
+                              intros Hok; destruct (HM Hok) as (H1 & H2 & H3);
+                              destruct (d_one_adds_le adds H1) as (H4 & H5 & H6);
+                              split; [exact H4|split; [apply (Z.le_trans _ _ _ H5 H2)|apply (Z.le_trans _ _ _ H6 H3)]]|];
+            intros [fields consumed];
+            eapply Inv_bind; [cbv zeta; eapply (Inv_if dret done); [apply Inv_ret|apply Inv_skip]|];
+            intros _; eapply Inv_bind; [exact IH|intros; apply Inv_ret]].
+          unfold dle, dtick, dseq, dalt, dret, done, d_len; cbn [dd de dok length].
+          intros Hok. rewrite Hok. cbn [andb]. split; [reflexivity|].
+          rewrite Nat2Z.inj_succ. subst P E. nia.
+        + eapply Inv_weaken; [|apply (Inv_tick 1), IH].
+          unfold dle, dtick; cbn [dd de dok length]. intros Hok. split; [exact Hok|].
+          rewrite Nat2Z.inj_succ. subst P E. nia.
+    Qed.
+
+    Lemma Inv_dec_additions adds : Inv (d_additions adds) (c_dec_additions decT adds).
+    Proof.
+      unfold c_dec_additions, d_additions.
+      eapply (Inv_bind_post _ _ _ _ _ (Inv_conv _ _ Cost_read_small_len) Post_read_small_len).
+      intros n Hn. cbv beta in Hn.
+      apply (Inv_bind_post (fun x : bits => length x = Z.to_nat n)).
+      - apply (Inv_one _ _ (Cost_read_raw (Z.to_nat n))); reflexivity.
+      - apply Post_read_raw.
+      - intros pres Hp. eapply Inv_weaken; [|apply (Inv_dec_adds_gen _ pres adds (dle_refl _))].
+        unfold d_dec_adds, d_adds_P, d_adds_E, dle; cbn [dd de dok]. intros Hok. split; [exact Hok|]. nia.
+    Qed.
+
+    Lemma Inv_dec_seq root ext : Inv (d_seq root ext) (c_dec_seq decT root ext).
+    Proof.
+      unfold c_dec_seq, d_seq. destruct ext as [adds|].
+      - apply Inv_bind; [apply Inv_conv, Cost_read_bit|]. intros b.
+        apply Inv_bind; [apply Inv_dec_root|]. intros fs. apply Inv_if; [|apply Inv_ret].
+        apply Inv_bind; [apply Inv_dec_additions|intros; apply Inv_ret].
+      - apply Inv_bind; [apply Inv_dec_root|intros; apply Inv_ret].
+    Qed.
+
+    Lemma Inv_dec_seqof elem sz : Inv (d_array sz (dT elem)) (c_dec_seqof decT elem sz).
+    Proof.
+      change (c_dec_seqof decT elem sz) with (c_array (decT elem) (fun vs => cret (VList vs)) sz).
+      apply Inv_array; [apply HT|intros; apply Inv_ret].
+    Qed.
+
+    Lemma dle_dmax_In alts m : In m alts -> dle (dT (m_ty m)) (dmax_alts alts).
+    Proof.
+      induction alts as [|a r IH]; intros Hin; [destruct Hin|].
+      cbn [dmax_alts fold_right]. fold (dmax_alts r). destruct Hin as [->|Hin]; [apply dle_alt_l|].
+      intros Hok. destruct (dle_alt_r (dT (m_ty a)) (dmax_alts r) Hok) as (H1 & H2 & H3).
+      destruct (IH Hin H1) as (H4 & H5 & H6). repeat split; [exact H4|lia|lia].
+    Qed.
+
+    Lemma Inv_alt alts i m : nth_z alts i = Some m -> Inv (dmax_alts alts) (decT (m_ty m)).
+    Proof.
+      intros Hn. eapply Inv_weaken; [apply (dle_dmax_In alts m), (nth_z_In _ _ _ Hn)|apply HT].
+    Qed.
+
+    Lemma Inv_dec_choice_root root : Inv (d_choice_root root) (c_dec_choice_root decT root).
+    Proof.
+      unfold c_dec_choice_root, d_choice_root. apply Inv_bind.
+      - destruct (1 <? length root)%nat; [apply Inv_conv, Cost_read_uint|apply Inv_ret].
+      - intros i. destruct (nth_z root i) as [m|] eqn:En.
+        + apply Inv_bind; [apply (Inv_alt root i m En)|intros; apply Inv_ret].
+        + intros Hok bs. unfold cfail. cbn [dok dseq dret] in Hok. apply andb_prop in Hok. destruct Hok as [Hok _].
+          cbn [de dseq dret].
+          pose proof (Z.mul_nonneg_nonneg B (Z.of_nat (length bs)) HB ltac:(lia)).
+          assert (0 <= de (dmax_alts root)).
+          { clear. unfold dmax_alts. induction root as [|a r IH]; cbn [fold_right dalt dfail de]; lia. }
+          lia.
+    Qed.
+
+    Lemma Inv_dec_choice root ext : Inv (d_choice root ext) (c_dec_choice decT root ext).
+    Proof.
+      unfold c_dec_choice, d_choice. destruct ext as [adds|]; [|apply Inv_dec_choice_root].
+      apply Inv_bind; [apply Inv_conv, Cost_read_bit|]. intros b. apply Inv_if; [apply Inv_dec_choice_root|].
+      apply Inv_bind; [apply Inv_conv, Cost_read_small_nonneg|]. intros i.
+      apply Inv_bind; [apply Inv_read_len|]. intros len. cbv zeta.
+      destruct (nth_z adds i) as [m|] eqn:En.
+      - eapply Inv_weaken; [apply dle_alt_l|].
+        apply Inv_bind; [apply Inv_with_consumed, (Inv_alt adds i m En)|].
+        intros [v consumed]. apply Inv_if; [apply Inv_fail|].
+        apply Inv_bind; [apply Inv_skip|intros; apply Inv_ret].
+      - eapply Inv_weaken; [apply dle_alt_r|].
+        apply Inv_bind; [apply Inv_skip|intros; apply Inv_ret].
+    Qed.
+  End DComposite.
+
+  (** the debt bound of a type; the names of [rho] are cut points whose bodies
+      are ASSUMED to satisfy the given bound (discharged by [rho_ok] below) *)
+  Section DK.
+    Variable rho : list (string * dk).
+    Variable e : env.
+
+    Fixpoint dK (fuel : nat) (t : ty) {struct fuel} : dk :=
+      match fuel with
+      | O => dtick 1 dfail
+      | S f =>
+        match t with
+        | TSeq _ root ext => dtick 1 (d_seq (dK f) root ext)
+        | TSeqOf _ elem sz => dtick 1 (d_array sz (dK f elem))
+        | TChoice root ext => dtick 1 (d_choice (dK f) root ext)
+        | TRef n =>
+          dtick 1 (match lookup n e with
+                   | None => dfail
+                   | Some t' => match lookup n rho with Some k => k | None => dK f t' end
+                   end)
+        | TTag _ t' => dtick 1 (dK f t')
+        | _ => dconv (Kabw e 1 t)
+        end
+      end.
+
+    Definition consistent : Prop :=
+      forall f n k t', lookup n rho = Some k -> lookup n e = Some t' -> dle (dK f t') k.
+
+    Lemma Inv_dK numeric : consistent -> forall f t, Inv (dK f t) (dec_cost numeric e f t).
+    Proof.
+      intros Hc. induction f as [|f IH]; intros t.
+      - cbn [dK dec_cost]. apply (Inv_tick 1), Inv_fail.
+      - destruct t; cbn [dK];
+          try (match goal with
+               | |- Inv (dconv _) (dec_cost _ _ _ ?t) =>
+                 change (dec_cost numeric e (S f) t) with (dec_cost numeric e 1 t);
+                 apply Inv_conv, Cost_dec
+               end).
+        + cbn [dec_cost]. apply (Inv_tick 1), Inv_dec_seq, IH.
+        + cbn [dec_cost]. apply (Inv_tick 1), Inv_dec_seqof, IH.
+        + cbn [dec_cost]. apply (Inv_tick 1), Inv_dec_choice, IH.
+        + cbn [dec_cost]. apply (Inv_tick 1). destruct (lookup name e) as [t'|] eqn:Ee; [|apply Inv_fail].
+          destruct (lookup name rho) as [k|] eqn:Er; [|apply IH].
+          eapply Inv_weaken; [apply (Hc f name k t' Er Ee)|apply IH].
+        + cbn [dec_cost]. apply (Inv_tick 1), IH.
+    Qed.
+
+    (** cut-point aware nesting depth *)
+    Fixpoint dfits (d : nat) (t : ty) {struct d} : bool :=
+      match d with
+      | O => false
+      | S d' =>
+        let ms_fit (ms : list (member_of ty)) := forallb (fun m => dfits d' (m_ty m)) ms in
+        match t with
+        | TSeq _ root ext =>
+          ms_fit root && match ext with
+                         | None => true
+                         | Some adds => forallb (fun ad : addition_of ty => ms_fit (snd ad)) adds
+                         end
+        | TSeqOf _ elem _ => dfits d' elem
+        | TChoice root ext => ms_fit root && match ext with None => true | Some adds => ms_fit adds end
+        | TRef n =>
+          match lookup n e with
+          | None => true
+          | Some t' => match lookup n rho with Some _ => true | None => dfits d' t' end
+          end
+        | TTag _ t' => dfits d' t'
+        | _ => true
+        end
+      end.
+  End DK.
+
+  Section DAgree.
+    Variable P : ty -> bool.
+    Variables dT1 dT2 : ty -> dk.
+    Hypothesis Hag : forall t, P t = true -> dT1 t = dT2 t.
+
+    Let ms_ok (ms : list (member_of ty)) := forallb (fun m => P (m_ty m)) ms.
+
+    Lemma d_members_agree ms : ms_ok ms = true -> d_members dT1 ms = d_members dT2 ms.
+    Proof.
+      induction ms as [|m r IH]; [reflexivity|]. unfold ms_ok. cbn [forallb d_members]. intros H.
+      apply andb_prop in H. destruct H as [H1 H2]. unfold d_member_seq. rewrite (Hag _ H1), (IH H2). reflexivity.
+    Qed.
+
+    Lemma d_root_agree ms : ms_ok ms = true -> d_root dT1 ms = d_root dT2 ms.
+    Proof. intros H. unfold d_root. rewrite (d_members_agree ms H). reflexivity. Qed.
+
+    Lemma d_one_addition_agree ad : ms_ok (snd ad) = true -> d_one_addition dT1 ad = d_one_addition dT2 ad.
+    Proof.
+      intros H. unfold d_one_addition. destruct (fst ad); [apply d_root_agree, H|].
+      destruct (snd ad) as [|m [|m2 ms]]; try reflexivity.
+      unfold ms_ok in H. cbn [forallb] in H. apply andb_prop in H. destruct H as [H _]. rewrite (Hag _ H). reflexivity.
+    Qed.
+
+    Lemma d_adds_max_agree adds :
+      forallb (fun ad : addition_of ty => ms_ok (snd ad)) adds = true ->
+      d_adds_max dT1 adds = d_adds_max dT2 adds.
+    Proof.
+      induction adds as [|ad r IH]; [reflexivity|]. cbn [forallb]. intros H.
+      apply andb_prop in H. destruct H as [H1 H2]. cbn [d_adds_max fold_right].
+      fold (d_adds_max dT1 r) (d_adds_max dT2 r). rewrite (d_one_addition_agree ad H1), (IH H2). reflexivity.
+    Qed.
+
+    Lemma d_seq_agree root ext :
+      ms_ok root && match ext with
+                    | None => true
+                    | Some adds => forallb (fun ad : addition_of ty => ms_ok (snd ad)) adds
+                    end = true ->
+      d_seq dT1 root ext = d_seq dT2 root ext.
+    Proof.
+      intros H. apply andb_prop in H. destruct H as [H1 H2]. unfold d_seq.
+      rewrite (d_root_agree root H1). destruct ext as [adds|]; [|reflexivity].
+      unfold d_additions, d_dec_adds, d_adds_P, d_adds_E. rewrite (d_adds_max_agree adds H2). reflexivity.
+    Qed.
+
+    Lemma dmax_alts_agree alts : ms_ok alts = true -> dmax_alts dT1 alts = dmax_alts dT2 alts.
+    Proof.
+      induction alts as [|m r IH]; [reflexivity|]. unfold ms_ok. cbn [forallb dmax_alts fold_right]. intros H.
+      apply andb_prop in H. destruct H as [H1 H2]. fold (dmax_alts dT1 r) (dmax_alts dT2 r).
+      rewrite (Hag _ H1), (IH H2). reflexivity.
+    Qed.
+
+    Lemma d_choice_agree root ext :
+      ms_ok root && match ext with None => true | Some adds => ms_ok adds end = true ->
+      d_choice dT1 root ext = d_choice dT2 root ext.
+    Proof.
+      intros H. apply andb_prop in H. destruct H as [H1 H2]. unfold d_choice, d_choice_root.
+      rewrite (dmax_alts_agree root H1). destruct ext as [adds|]; [|reflexivity].
+      rewrite (dmax_alts_agree adds H2). reflexivity.
+    Qed.
+  End DAgree.
+
+  Lemma dK_fuel_stable rho e d : forall t fuel,
+    dfits rho e d t = true -> (d <= fuel)%nat -> dK rho e fuel t = dK rho e d t.
+  Proof.
+    induction d as [|d IH]; intros t fuel Hf Hle; [discriminate|].
+    destruct fuel as [|f]; [lia|]. assert (Hle' : (d <= f)%nat) by lia.
+    assert (Hag : forall t', dfits rho e d t' = true -> dK rho e f t' = dK rho e d t')
+      by (intros; apply IH; assumption).
+    cbn [dK]. cbn [dfits] in Hf. destruct t; try reflexivity.
+    - f_equal. apply (d_seq_agree (dfits rho e d)); assumption.
+    - rewrite (Hag _ Hf). reflexivity.
+    - f_equal. apply (d_choice_agree (dfits rho e d)); assumption.
+    - destruct (lookup name e); [|reflexivity]. destruct (lookup name rho); [reflexivity|].
+      rewrite (Hag _ Hf). reflexivity.
+    - rewrite (Hag _ Hf). reflexivity.
+  Qed.
+
+  (** the boolean consistency check of the assumed bounds: every cut point's
+      body, analysed under the assumptions at every fuel up to its (cut) depth
+      [d], stays within its assumed bound *)
+  Definition dleb (k k' : dk) : bool := dok k && (dd k <=? dd k') && (de k <=? de k').
+
+  Definition rho_ok (rho : list (string * dk)) (e : env) (d : nat) : bool :=
+    forallb (fun nk : string * dk =>
+               match lookup (fst nk) e with
+               | None => true
+               | Some t' =>
+                 dfits rho e d t' && forallb (fun f => dleb (dK rho e f t') (snd nk)) (seq 0 (S d))
+               end) rho.
+
+  Lemma lookup_In {V} n (l : list (string * V)) v : lookup n l = Some v -> In (n, v) l.
+  Proof.
+    induction l as [|[k a] r IH]; cbn [lookup]; [discriminate|].
+    destruct (String.eqb n k) eqn:E.
+    - intros H. inversion H; subst. apply String.eqb_eq in E. subst. left. reflexivity.
+    - intros H. right. apply IH, H.
+  Qed.
+
+  Lemma rho_ok_consistent rho e d : rho_ok rho e d = true -> consistent rho e.
+  Proof.
+    intros Hok f n k t' Hr He. unfold rho_ok in Hok. rewrite forallb_forall in Hok.
+    specialize (Hok (n, k) (lookup_In _ _ _ Hr)). cbn [fst snd] in Hok. rewrite He in Hok.
+    apply andb_prop in Hok. destruct Hok as [Hfit Htab]. rewrite forallb_forall in Htab.
+    assert (Hb : dleb (dK rho e f t') k = true).
+    { destruct (Nat.le_gt_cases f d) as [Hle|Hgt].
+      - apply Htab. apply in_seq. lia.
+      - rewrite (dK_fuel_stable rho e d t' f Hfit ltac:(lia)). apply Htab. apply in_seq. lia. }
+    unfold dleb in Hb. apply andb_prop in Hb. destruct Hb as [Hb H3]. apply andb_prop in Hb. destruct Hb as [H1 H2].
+    intros _. repeat split; [exact H1|lia|lia].
+  Qed.
+End Debt.
+
+(** THE BOUND FOR RECURSIVE TYPES: if the assumed bounds of the cut points are
+    consistent ([rho_ok], a computation) then, for EVERY fuel, the steps are
+    bounded by the debt bound of the type plus [B] per input bit; and when [t]
+    is acyclic up to the cut points ([dfits]) that bound does not depend on
+    the fuel. *)
+Theorem dec_cost_bound_rec numeric B M rho e d fuel t inp :
+  0 <= B -> rho_ok B M rho e d = true -> dok (dK B M rho e fuel t) = true ->
+  Z.of_N (snd (dec_cost numeric e fuel t inp))
+  <= Z.max (dd (dK B M rho e fuel t)) (de (dK B M rho e fuel t)) + B * Z.of_nat (length inp).
+Proof.
+  intros HB Hok Hd.
+  pose proof (Inv_dK B HB M rho e numeric (rho_ok_consistent B M rho e d Hok) fuel t Hd inp) as H.
+  destruct (dec_cost numeric e fuel t inp) as [[[v r]|x] c]; cbn [snd]; [|lia].
+  destruct H as (L & C).
+  assert (B * Z.of_nat (length inp - length r) <= B * Z.of_nat (length inp)) by (apply Z.mul_le_mono_nonneg_l; lia).
+  lia.
+Qed.
+
+(* OPEN: dec_cost_bound_guarded - completeness of the check.  For every
+   environment in which every reference cycle passes through a position that
+   consumes at least one bit (a presence bit, the index of a CHOICE with two or
+   more alternatives, an extension bit, a length determinant) there are B, M
+   and rho with rho_ok B M rho e d = true.  Here the check is discharged per
+   specification, by computation (UperCostEx.v: ex_rho_ok, tree_rho_ok); an
+   unguarded cycle has no such bound (UperCostEx.v:
+   unguarded_recursion_costs_the_fuel). *)
+
+Theorem dec_cost_bound_rec_stable numeric B M rho e d d' fuel t inp :
+  0 <= B -> rho_ok B M rho e d = true -> dfits rho e d' t = true -> (d' <= fuel)%nat ->
+  dok (dK B M rho e d' t) = true ->
+  Z.of_N (snd (dec_cost numeric e fuel t inp))
+  <= Z.max (dd (dK B M rho e d' t)) (de (dK B M rho e d' t)) + B * Z.of_nat (length inp).
+Proof.
+  intros HB Hok Hf Hle Hd. rewrite <- (dK_fuel_stable B M rho e d' t fuel Hf Hle) in *.
+  apply (dec_cost_bound_rec numeric B M rho e d fuel t inp HB Hok Hd).
+Qed.
+
+Print Assumptions dec_cost_erases.
+Print Assumptions dec_cost_bound.
+Print Assumptions dec_cost_bound_consumed.
+Print Assumptions uper_decode_cost_bound.
+Print Assumptions K_fuel_stable.
+Print Assumptions dec_cost_bound_acyclic.
+Print Assumptions dec_cost_bound_rec.
+Print Assumptions dec_cost_bound_rec_stable.
